@@ -21,4 +21,14 @@ Consistent == B!Consistent
 RateLimit == B!RateLimit
 Settled == B!Settled
 StepProps == B!ChangeDriven /\ B!Quiescent /\ B!CoverExact
+
+\* BackupInd is the typed twin of the task used for the unbounded inductive proof (Apalache); here TLC checks, on the
+\* bounded instance, that Backup refines it (every step of Backup is a step of BackupInd or leaves its variables
+\* unchanged) under the abstraction "the upload history is its length and its last element", and that the
+\* inductive invariant holds in every reachable state.
+BI == INSTANCE BackupInd WITH nups <- Len(ups),
+                              lastAt <- (IF ups = <<>> THEN 0 ELSE ups[Len(ups)].at),
+                              lastBody <- (IF ups = <<>> THEN 0 ELSE ups[Len(ups)].body)
+IndInvHolds == BI!IndInv
+RefinesInd == [][BI!Next \/ UNCHANGED BI!vars]_vars
 =============================================================================
